@@ -9,7 +9,10 @@ PROP = dict(
                    "of threads, call queues and primitive-level schedules: the single-primitive methods of sync2.Map/ConcurrentSets and "
                    "the repaired LoadOrStoreFn are linearizable, with at most one loaded=false winner per key (C20_*_linearizable, "
                    "C20_loadOrStoreFn_one_winner); Range is regular (C20_range_regular) but not atomic (C20_range_not_atomic = KF-C20-1). "
-                   "Counterexample theorems show the race without the mutex and the two winners of Load+Store.",
+                   "Counterexample theorems show the race without the mutex and the two winners of Load+Store. Length() of the sets is "
+                   "specified as the number of keys present (C20_length_counts_present); Put/Remove calls in which no key is both put and "
+                   "removed leave the same set in every order (C20_setlen_final, C20_setlen_order_irrelevant), and a quiescent Length that is "
+                   "one too small after two overlapping Removes of one key has no sequential explanation (C20_length_drift_not_linearizable).",
         level_note="Partial by nature: the model is sequentially consistent and assumes sync.Map/Mutex/WaitGroup primitives atomic; the Go "
                    "memory model, sync.Map internals and what scanners/closers touch internally are covered only by the race-detector runs "
                    "(real starts with simultaneously failing scanners, real shutdowns) and by linearizability checks of recorded histories.",
@@ -20,9 +23,14 @@ PROP = dict(
              "each in its own fresh race-detector child process: one dependency + n (8-48, sometimes 2-7) components carrying wire / "
              "value / prop / logger tags in 1-4 shapes, so that many components share a tag text which the parallel scan meets "
              "for the first time in that process; n/20 (max 40) forced "
-             "schedules (LoadOrStoreFn with both callers past the Load; Range with deletes after a visits); n recorded histories: object "
+             "schedules (LoadOrStoreFn with both callers past the Load; Range with deletes after a visits); 6 (thorough n/400, max 40) `setlen` cases: up to 600 (1500) fresh "
+             "ConcurrentSets / GenericConcurrentSets {1..nk}, 2-12 goroutines released from a spinning barrier that all Remove ONE present key (1/3 "
+             "of the cases with further Put / Remove calls on other keys; no key both put and removed), then Length(), len(ToArray()) and "
+             "Exists are read at quiescence and must be what a sequential execution leaves (set-length-drift, set-final-state); "
+             "n recorded histories: object "
              "sync2.Map (50%), ConcurrentSets, GenericConcurrentSets; 2-4 goroutines x 1-3 calls (max 8) over 2-3 keys, random "
-             "Gosched inside calls; histories are compared lin/nonlin between the harness checker and the model's checker; "
+             "Gosched inside calls; set histories use Put / Exists / Remove / Length (N) and end with one quiescent Length; a Length that "
+             "overlaps a Put/Remove is a Range underneath and is classified like Range (range-not-atomic), a quiescent one never is; histories are compared lin/nonlin between the harness checker and the model's checker; "
              "distinct = distinct scenario lines",
         trusted_base=COMMON_TB + ["the reading of Facts.scanSkel/closeSkel/sync2Methods/concurrentSetMethods into guards and primitive "
                                   "sequences (Ioc.Conc.scanShape, closeShape, factProgs) and the go/ast skeleton extractor",
@@ -32,5 +40,7 @@ PROP = dict(
                      "equivalence with happens-before races is assumed, not proved)",
                      "user scanners and closers are themselves race-free; the property is about the container's own accesses",
                      "Range's callback runs to the end (no early stop) in the model",
-                     "KF-C20-1: Range is not atomic (known finding, documented sync.Map behaviour)"],
+                     "KF-C20-1: Range is not atomic (known finding, documented sync.Map behaviour)",
+                     "Length()/ToArray() of the sets are modelled by their sequential specification only (they are one sync.Map.Range "
+                     "underneath; no regenerated fact covers them)"],
     )
